@@ -29,7 +29,7 @@ from ..repo import AnalysisError, dotted, own_nodes
 MANIFEST = {
     "text": (
         "Decides the structural clauses of C20: the frame writer/reader pair "
-        "agrees on order for any number of frames (unbounded n, in particular "
+        "agrees on order and on file names (every name filter of the reader accepts every name the writer produces) for any number of frames (unbounded n, in particular "
         "n >= 100); the Gantt plot draws exactly one single-range bar per "
         "scheduled operation of every machine list, in the row of its machine "
         "index, with the job's colour shared by bar and legend; each frame k is "
